@@ -32,7 +32,7 @@ package arvados
 //@   ensures result == nil ==> signatureHex == hmacsha1hex(string(permissionSecret), permMessage(blobHash, apiToken, expiryHex, strconv.FormatInt(int64(time.Duration.Seconds(blobSignatureTTL)), 16)))
 
 // Duration.Duration is a type conversion (time.Duration(d)).
-//@ func Duration.Duration trusted pure
+//@ func Duration.Duration property C04,C05,C06,C11,C14,C16 pure
 //@   modifies nothing
 
 // ---------------------------------------------------- C06: index completeness
@@ -201,7 +201,7 @@ package arvados
 //@   ensures err == nil ==> walked
 //@   calls inode.Child#1: requires $0 == name
 //@   calls inode.Child#2: requires walked && $0 == basename
-//@ func manifestUnescape property C09,C10
+//@ func manifestUnescape trustedframe property C09,C10
 //@   modifies nothing
 //@ func filenode.appendSegment property C09,C10
 //@   modifies filenode.segments filenode.fileinfo mem:segment
@@ -375,7 +375,7 @@ package arvados
 //@   modifies nothing
 //@ iface inode.Parent
 //@   modifies nothing
-//@ func rlookup property C08
+//@ func rlookup trustedframe property C08
 //@   modifies nothing
 
 // openFile: the access mode of the handle is decoded from the low two flag
@@ -442,7 +442,7 @@ package arvados
 // IndexMount / Index: thin wrappers - the listing comes from the checked
 // reader (KeepService.index, which refuses a truncated answer) and is passed on
 // with its error.
-//@ func KeepService.url trusted pure
+//@ func KeepService.url property C06 pure
 //@   modifies nothing
 //@ func KeepService.IndexMount property C06
 //@   only calls: KeepService.index KeepService.url
